@@ -320,6 +320,7 @@ def explore(harness, *, max_paths=1000, deadline=None, hints=(), range_bound=2, 
                 sat = c._check(z3.Not(t))
                 if not sat:
                     cl[1] += 1
+                    c.solver.add(t)  # proven under the path condition: a sound lemma for the next clauses
                     continue
                 model = c.solver.model()
                 c.notes["neg_clause"] = z3.Not(t)
